@@ -11,6 +11,8 @@ Inductive kind := KFloat | KInt | KI8 | KU8 | KOther.
 Definition outT := (kind * list Z * list fval)%type.
 (* outcome of load + run under one configuration; [RSame] = Ok with outputs bit-identical to the
    baseline run (printed that way by the harness to keep the cases small) *)
+(* the baseline outputs are elided (printed as [ROk []]) when every other configuration is RSame or
+   failed: they are then not needed by the oracle (every generated graph has >= 1 output) *)
 Inductive run := ROk (o : list outT) | RSame | RLoadErr | RRunErr | RPanic.
 
 Inductive bop := OAdd | OSub | OMul | ODiv | OIdent.
